@@ -56,6 +56,20 @@ def run(ctx):
                     er = complex(trial._calc_energy_restricted(jnp.array(Wa), ham, wd))
                     lines.append(wf.sd_line_rhfr(plain, Ca, Wa))
                     refs.append(("rhf restricted", er, {"norb": norb, "nelec": ne}))
+    # ghf: the same Lean model in the doubled (spin-orbital) space, second spin block empty
+    # (the interpreted exact model costs ~k! per determinant: two electrons in the quick tier, three in the thorough one)
+    for norb, ne in (((3, (1, 1)), (2, (1, 1))) if ctx.tier == "quick" else ((3, (1, 1)), (2, (1, 1)), (3, (2, 1)))):
+        try:
+            trial, wd, desc = trials.make("ghf", rng, norb, ne)
+            hamg0, plaing = trials.make_ham(rng, norb, nchol=2, spin_dependent=True)
+            hamg = trial._build_measurement_intermediates(dict(hamg0), wd)
+            for _ in range(2):
+                Wa, Wb = wf.complex_walker(rng, norb, ne[0]), wf.complex_walker(rng, norb, ne[1])
+                val = complex(trial._calc_energy(jnp.array(Wa), jnp.array(Wb), hamg, wd))
+                lines.append(wf.ghf_as_doubled(plaing, np.array(wd["mo_coeff"]), Wa, Wb))
+                refs.append(("ghf unrestricted", val, {"norb": norb, "nelec": ne}))
+        except Exception as ex:
+            spec_fail.append(("ghf", "ghf model case can be built", {"error": repr(ex)[:300]}))
     mism = []
     try:
         model = common.lean_run("SD", lines)
@@ -63,6 +77,9 @@ def run(ctx):
             d = wf.parse_line(model[k]) if k < len(model) else {}
             if "energy" not in d or not wf.close(e, wf.parse_qi(d["energy"]), 1e-9):
                 mism.append({"entry": name, "impl": str(e), "model": d.get("energy"), **det})
+                # the Lean model is PROVED equal to the mixed estimator: a disagreement on a concrete input is a concrete failing input
+                spec_fail.append((name, "implementation equals the proved closed form of the mixed estimator on this input (theorem + exact evaluation at Q(i))",
+                                  {**det, "impl": str(mism[-1].get("impl"))[:300], "model": str(mism[-1].get("model"))[:300], "protocol_line": lines[k][:4000]}))
     except Exception as ex:
         ctx.broken.append({"kind": "driver", "error": str(ex)[-1500:]})
     # ---- (b) all kinds vs the Fock-space mixed estimator
